@@ -498,7 +498,7 @@ def _random_node_(seed):
                 continue
             act = 'do' if r < 0.9 else rnd.choice(['read', 'change'])
             pay = None if act == 'read' else 1 if act == 'change' else \
-                (None if rnd.random() < 0.8 else 1) if d['arg']['t'] == 'none' else dc.conc(dc.rand_payload(rnd, d['arg']))
+                (None if rnd.random() < 0.6 else rnd.choice([0, 0.0, False, '', [], {}, 1, 'x'])) if d['arg']['t'] == 'none' else dc.conc(dc.rand_payload(rnd, d['arg']))
         else:
             act = 'change' if r < 0.75 else 'read' if r < 0.9 else rnd.choice(['do', 'activate'])
             pay = dc.conc(dc.rand_payload(rnd, d['dt'])) if act == 'change' and d['dt']['t'] != 'other' else \
